@@ -19,7 +19,12 @@ type Tape struct {
 }
 
 func NewTape(seed uint64) *Tape {
-	return &Tape{state: seed*0x9E3779B97F4A7C15 + 0x632BE59BD9B4E019}
+	// scramble the seed first: with a plain affine start the stream of seed
+	// s+k would be the stream of seed s shifted by k draws
+	z := seed + 0x9E3779B97F4A7C15
+	z = (z ^ (z >> 30)) * 0xBF58476D1CE4E5B9
+	z = (z ^ (z >> 27)) * 0x94D049BB133111EB
+	return &Tape{state: z ^ (z >> 31)}
 }
 
 func ReplayTape(vals []uint32) *Tape {
